@@ -186,4 +186,19 @@ def run(chk):
     multi = next(c for k, c in deep_circuits() if k == "reconv")
     r = P.call(FILE, "supergates", multi, True)
     chk.ob("C17.D.supercircuit", "supergates::supercircuit::multi-output rejected", r[0] == "raise" and r[1] == "ValueError", file=FILE, func="supergates", fact={"result": str(r)[:100]}, expect="ValueError")
+    from ..stale import circuit_snapshot, stale_state_rule
+    from ..minieval import ModelRaise as _MR
+
+    def _mk_call(file_, fname_, *extra):
+        def _call(c):
+            r = P.call(file_, fname_, c, *extra)
+            if r[0] != "return":
+                raise _MR(r[1], r[2] if len(r) > 2 else "")
+            return r[1]
+        return _call
+
+    def _sg_snapshot(blocks):
+        return sorted((sorted(b.outputs()), sorted(b.inputs()), sorted((x, b.type(x)) for x in b.nodes())) for b in blocks)
+
+    stale_state_rule(chk, "C17.H.no-stale-state", _mk_call(FILE, "supergates"), _sg_snapshot, FILE, "supergates")
     chk.floor("supergate evaluations", n, 40)
